@@ -88,6 +88,11 @@ def grammar_texts():
   add('comment', '$a # $b', '# $a\n$a', '$a\n# trailing $b', '# only comment $a', '#', '# a\n# b',
       '$a #', '#$a\n#$b\n$b', '$a # "unterminated', "$a # 'x", '$a # """', '# (\n$a', '$a #\\\n+ 1',
       '($a # c\n + 1)', '[$a, # one $b\n $b] # two')
+  # multi-line BYTES literals and no multi-line str in the same formula (the un-indenting of
+  # literals is switched on by a hint computed from the formula's constants)
+  add('bytes-literal', 'len(b"""x\ny\nz""")', 'b"""a\n    b""".decode()', 'x = b"ab\\\n  cd"\nlen(x) + $a',
+      '(b"a"\n b"b").decode()', 'b"""\n$a\n""".decode() + str($a)', 'len(b"""a\n    \nb""")',
+      'if $a > 1:\n  x = b"""a\n  b"""\nelse:\n  x = b"c"\nlen(x)', 'len(rb"""a\n\\n""")', 'b"$a".decode()')
   add('triple-quoted', '"""$a"""', '"""line1\n$a\nline3"""', "'''a\n  $a\n    \nb'''",
       'x = """\n  $a\n"""\nx + str($a)', '"""a\n    \nb"""', '"""a\n  \nb"""', '"""a\n      \nb"""',
       '"""a\n \nb"""', '"""a\n     b\n    c\n   d"""', '"""\n    $a"""', '"""a\\\n    b"""',
@@ -425,6 +430,18 @@ def expected_cells(text, rows):
   return ('valid', cells)
 
 
+def rejected_feature(text):
+  """Root-cause detail for a valid formula whose cell holds a syntax error: the control character
+  Python's tokenizer treats specially, else the construct as for wrong values."""
+  if '\x00' in text:
+    return 'NUL'
+  if '\r' in text.replace('\r\n', ''):
+    return 'lone-CR'
+  if '\x0c' in text:
+    return 'form-feed'
+  return value_feature(text)
+
+
 def value_feature(text):
   """Root-cause detail for a wrong value: the most specific construct the text contains."""
   try:
@@ -462,13 +479,14 @@ def check_cells(text, rows, actual):
         return exp, ('C19/wrong-value/error-expected', "formula %r row %d: the text raises %s but the cell is %r"
                      % (text, i + 1, e[1], cell))
       if cell[1] != e[1]:
-        kind = 'valid-rejected' if cell[1] in ('SyntaxError', 'IndentationError') else 'wrong-value/error-class'
+        kind = ('valid-rejected/' + rejected_feature(text) if cell[1] in ('SyntaxError', 'IndentationError')
+                else 'wrong-value/error-class')
         return exp, ('C19/' + kind, "formula %r row %d: the text raises %s but the cell is %r" % (
             text, i + 1, e[1], cell))
     else:
       if is_error(cell):
-        kind = ('valid-rejected' if cell[1] in ('SyntaxError', 'IndentationError') else
-                'wrong-value/unexpected-error')
+        kind = ('valid-rejected/' + rejected_feature(text) if cell[1] in ('SyntaxError', 'IndentationError')
+                else 'wrong-value/unexpected-error')
         return exp, ('C19/' + kind, "formula %r row %d: the text means %r but the cell is %r" % (
             text, i + 1, e[1], cell))
       if not same(e[1], cell):
